@@ -6,61 +6,69 @@ import DesperProofs.Lemmas.Dict
 namespace Desper.World
 open Desper
 
-/-- same component tables (entities, index, pending deletions, id counter) -/
-structure SameTables (s s' : St) : Prop where
+/-- same component tables (entities, index, id counter, processors) — and the same pending deletions as
+long as no callback calls `delete_entity` itself (`U.Passive`) -/
+structure SameTables (U : Universe) (s s' : St) : Prop where
   ents : s'.ents = s.ents
   comps : s'.comps = s.comps
-  dead : s'.dead = s.dead
+  dead : U.Passive → s'.dead = s.dead
   nextId : s'.nextId = s.nextId
   procs : s'.procs = s.procs
   sorted : s'.sorted = s.sorted
   prio : s'.prio = s.prio
 
-theorem SameTables.refl (s : St) : SameTables s s := ⟨rfl, rfl, rfl, rfl, rfl, rfl, rfl⟩
+theorem SameTables.refl {U : Universe} (s : St) : SameTables U s s :=
+  ⟨rfl, rfl, fun _ => rfl, rfl, rfl, rfl, rfl⟩
 
-theorem SameTables.trans {a b c : St} (h1 : SameTables a b) (h2 : SameTables b c) : SameTables a c :=
-  ⟨h2.ents.trans h1.ents, h2.comps.trans h1.comps, h2.dead.trans h1.dead, h2.nextId.trans h1.nextId,
+theorem SameTables.trans {U : Universe} {a b c : St} (h1 : SameTables U a b) (h2 : SameTables U b c) :
+    SameTables U a c :=
+  ⟨h2.ents.trans h1.ents, h2.comps.trans h1.comps, fun h => (h2.dead h).trans (h1.dead h),
+   h2.nextId.trans h1.nextId,
    h2.procs.trans h1.procs, h2.sorted.trans h1.sorted, h2.prio.trans h1.prio⟩
 
 theorem callCb_tables (U : Universe) (s : St) (o : Obj) (m : String) (e : Entry) :
-    SameTables s (callCb U s o m e).1 := by
+    SameTables U s (callCb U s o m e).1 := by
   unfold callCb
   simp only
-  split <;> exact ⟨rfl, rfl, rfl, rfl, rfl, rfl, rfl⟩
+  cases hr : U.reacts o m ((Dict.get? s.calls (o, m)).getD 0) with
+  | none => split <;> exact ⟨rfl, rfl, fun _ => rfl, rfl, rfl, rfl, rfl⟩
+  | some x =>
+    have hd : U.Passive → False := fun h => by rw [h.noReact] at hr; cases hr
+    split <;> exact ⟨rfl, rfl, fun h => (hd h).elim, rfl, rfl, rfl, rfl⟩
 
 theorem ctrlRecord_tables (U : Universe) (s : St) (ev : String) (o : Obj) (ent : Option Ent) :
-    SameTables s (ctrlRecord U s ev o ent) := by
+    SameTables U s (ctrlRecord U s ev o ent) := by
   unfold ctrlRecord
   split
-  · split <;> exact ⟨rfl, rfl, rfl, rfl, rfl, rfl, rfl⟩
+  · split <;> exact ⟨rfl, rfl, fun _ => rfl, rfl, rfl, rfl, rfl⟩
   · exact .refl s
 
 theorem lifecycle_tables (U : Universe) (s : St) (ev : String) (o : Obj) (m : Mapping)
-    (ent : Option Ent) : SameTables s (lifecycle U s ev o m ent).1 := by
+    (ent : Option Ent) : SameTables U s (lifecycle U s ev o m ent).1 := by
   unfold lifecycle
   split
   · exact .refl s
   · split
     · exact SameTables.trans (ctrlRecord_tables U s ev o ent) (callCb_tables U _ o _ _)
     · split
-      · exact ⟨rfl, rfl, rfl, rfl, rfl, rfl, rfl⟩
+      · exact ⟨rfl, rfl, fun _ => rfl, rfl, rfl, rfl, rfl⟩
       · exact .refl s
 
-theorem removeHandler_tables (s : St) (o : Obj) : SameTables s (removeHandler s o) :=
-  ⟨rfl, rfl, rfl, rfl, rfl, rfl, rfl⟩
+theorem removeHandler_tables {U : Universe} (s : St) (o : Obj) : SameTables U s (removeHandler s o) :=
+  ⟨rfl, rfl, fun _ => rfl, rfl, rfl, rfl, rfl⟩
 
-theorem addHandler_tables (s : St) (o : Obj) (m : Mapping) : SameTables s (addHandler s o m) :=
-  ⟨rfl, rfl, rfl, rfl, rfl, rfl, rfl⟩
+theorem addHandler_tables {U : Universe} (s : St) (o : Obj) (m : Mapping) : SameTables U s (addHandler s o m) :=
+  ⟨rfl, rfl, fun _ => rfl, rfl, rfl, rfl, rfl⟩
 
 theorem attachEvents_tables (U : Universe) (s : St) (o : Obj) (ent : Option Ent) :
-    SameTables s (attachEvents U s o ent).1 := by
+    SameTables U s (attachEvents U s o ent).1 := by
   unfold attachEvents
   split
   · exact .refl s
   · exact SameTables.trans (addHandler_tables s o _) (lifecycle_tables U _ _ o _ ent)
 
 theorem attachAll_tables (U : Universe) (s : St) (e : Ent) (cs : List Obj) :
-    SameTables s (attachAll U s e cs).1 := by
+    SameTables U s (attachAll U s e cs).1 := by
   induction cs generalizing s with
   | nil => exact .refl s
   | cons c cs ih =>
@@ -91,7 +99,7 @@ theorem removeComponent_spec (U : Universe) (s : St) (e : Ent) (t : Ty) :
         removeComponent U s e t = (s, .ok, none)) ∨
     (∃ st c, (visit U t).find? (fun st => (Dict.get? (row s e) st).isSome) = some st ∧
         Dict.get? (row s e) st = some c ∧ (removeComponent U s e t).2.2 = some c ∧
-        SameTables (detach s e st) (removeComponent U s e t).1) := by
+        SameTables U (detach s e st) (removeComponent U s e t).1) := by
   unfold removeComponent
   cases hf : (visit U t).find? (fun st => (Dict.get? (row s e) st).isSome) with
   | none => left; exact ⟨rfl, rfl⟩
